@@ -167,9 +167,10 @@ end
 
 /-! ### the whole task -/
 
-/-- the space-wide clip leaves feasible positions where they are -/
-def ClipFixes (c : ClipLoop) (lbs ubs : List Int) : Prop :=
-  ∀ pos : Pos, InBox lbs ubs pos → c.runPos lbs ubs pos = pos
+/-- the space-wide clip, run with the declared bounds `dl`, `du`, leaves the positions of the box `lbs … ubs` where they are
+    (search spaces: the box is the declared one; hypercomplex spaces: the unit box, whatever was declared) -/
+def ClipFixes (c : ClipLoop) (dl du lbs ubs : List Int) : Prop :=
+  ∀ pos : Pos, InBox lbs ubs pos → c.runPos dl du pos = pos
 
 theorem sweepPop_pop (l : SweepLoop) (swarm : Bool) (hr : IsRule l swarm) (lbs ubs : List Int) (f : Pos → Int)
     (pop : List Ag) (best : Ag) (fresh : Nat) :
@@ -180,7 +181,7 @@ theorem sweepPop_pop (l : SweepLoop) (swarm : Bool) (hr : IsRule l swarm) (lbs u
   | cons a as ih => simp only [sweepPop, hr, List.map_cons]; rw [ih]
 
 section
-variable (p : TaskProg) (site : Site) (acc : AcceptRec) (lbs ubs : List Int) (f : Pos → Int) (script : Nat → List Trial)
+variable (p : TaskProg) (site : Site) (acc : AcceptRec) (dl du : List Int) (lbs ubs : List Int) (f : Pos → Int) (script : Nat → List Trial)
 
 /-- what holds of a greedy task from its first sweep on -/
 structure GInv (lbs ubs : List Int) (f : Pos → Int) (s : TaskSt) : Prop where
@@ -201,10 +202,10 @@ theorem map_fix_settled (g : Ag → Ag) (pop : List Ag) (h : ∀ a ∈ pop, g a 
     rw [h a List.mem_cons_self, ih (fun x hx => h x (List.mem_cons_of_mem _ hx))]
 
 theorem ginv_execEv (hb : BoundsOk lbs ubs) (hs : opsOk false site.ops = true) (ha : acc.okReplace = true)
-    (hc : ClipFixes p.clip lbs ubs) (hr : IsRule p.sweep false)
+    (hc : ClipFixes p.clip dl du lbs ubs) (hr : IsRule p.sweep false)
     (hscript : ∀ k, ∀ t ∈ script k, ∀ q ∈ t.proposals, q.length = lbs.length)
     (s : TaskSt) (ev : SEv) (h : GInv lbs ubs f s) :
-    GInv lbs ubs f (p.execEv lbs ubs (greedyOracle site acc lbs ubs f script) s ev) := by
+    GInv lbs ubs f (p.execEv dl du (greedyOracle site acc lbs ubs f script) s ev) := by
   obtain ⟨h1, h2, h3, h4⟩ := h
   cases ev with
   | update =>
@@ -213,15 +214,15 @@ theorem ginv_execEv (hb : BoundsOk lbs ubs) (hs : opsOk false site.ops = true) (
   | hook => exact ⟨h1, h2, h3, h4⟩
   | post => exact ⟨h1, h2, h3, h4⟩
   | clipAll =>
-    have e : (s.pop.map fun a => { a with pos := p.clip.runPos lbs ubs a.pos }) = s.pop :=
+    have e : (s.pop.map fun a => { a with pos := p.clip.runPos dl du a.pos }) = s.pop :=
       map_fix_settled _ s.pop (fun a ha' => by rw [hc a.pos (h1 a ha').1])
     refine ⟨?_, ?_, h3, h4⟩
     · simp only [TaskProg.execEv]; rw [e]; exact h1
     · simp only [TaskProg.execEv]; rw [e]; exact h2
   | sweep =>
-    have e : (sweepPop p.sweep lbs ubs f s.pop s.best s.fresh).1
-        = s.pop.map (fun a => sweepAgent ⟨0, false, lbs, ubs⟩ a (f a.pos)) := sweepPop_pop p.sweep false hr lbs ubs f _ _ _
-    have ef : ((sweepPop p.sweep lbs ubs f s.pop s.best s.fresh).1).map (·.fit) = s.pop.map (·.fit) := by
+    have e : (sweepPop p.sweep dl du f s.pop s.best s.fresh).1
+        = s.pop.map (fun a => sweepAgent ⟨0, false, dl, du⟩ a (f a.pos)) := sweepPop_pop p.sweep false hr dl du f _ _ _
+    have ef : ((sweepPop p.sweep dl du f s.pop s.best s.fresh).1).map (·.fit) = s.pop.map (·.fit) := by
       rw [e, List.map_map]
       apply List.map_congr_left
       intro a ha'
@@ -258,13 +259,13 @@ theorem ginv_execEv (hb : BoundsOk lbs ubs) (hs : opsOk false site.ops = true) (
         exact ⟨(h1 a ha').1, (h1 a ha').2⟩
 
 theorem ginv_exec (hb : BoundsOk lbs ubs) (hs : opsOk false site.ops = true) (ha : acc.okReplace = true)
-    (hc : ClipFixes p.clip lbs ubs) (hr : IsRule p.sweep false)
+    (hc : ClipFixes p.clip dl du lbs ubs) (hr : IsRule p.sweep false)
     (hscript : ∀ k, ∀ t ∈ script k, ∀ q ∈ t.proposals, q.length = lbs.length)
     (es : List SEv) (s : TaskSt) (h : GInv lbs ubs f s) :
-    GInv lbs ubs f (p.exec lbs ubs (greedyOracle site acc lbs ubs f script) s es) := by
+    GInv lbs ubs f (p.exec dl du (greedyOracle site acc lbs ubs f script) s es) := by
   induction es generalizing s with
   | nil => exact h
-  | cons e es ih => exact ih _ (ginv_execEv p site acc lbs ubs f script hb hs ha hc hr hscript s e h)
+  | cons e es ih => exact ih _ (ginv_execEv p site acc dl du lbs ubs f script hb hs ha hc hr hscript s e h)
 
 theorem runSkel_pre (sk : Skeleton) (N : Nat) : ∃ rest, runSkel sk N = evs sk.pre ++ rest := by
   induction N with
@@ -280,18 +281,18 @@ theorem runSkel_pre (sk : Skeleton) (N : Nat) : ∃ rest, runSkel sk N = evs sk.
     `greedyUpdate_evals_inBox`), every per-agent record is feasible and truthful, and from record to record no agent's
     fitness increases. -/
 theorem task_greedy (hg : Good true p.skel = true) (hb : BoundsOk lbs ubs) (hs : opsOk false site.ops = true)
-    (ha : acc.okReplace = true) (hc : ClipFixes p.clip lbs ubs) (hr : IsRule p.sweep false)
+    (ha : acc.okReplace = true) (hc : ClipFixes p.clip dl du lbs ubs) (hr : IsRule p.sweep false)
     (hscript : ∀ k, ∀ t ∈ script k, ∀ q ∈ t.proposals, q.length = lbs.length)
     (pop : List Ag) (best : Ag) (h0 : ∀ a ∈ pop, InBox lbs ubs a.pos) (N : Nat) :
-    GInv lbs ubs f (p.runTask lbs ubs (greedyOracle site acc lbs ubs f script) (TaskSt.start pop best) N) := by
+    GInv lbs ubs f (p.runTask dl du (greedyOracle site acc lbs ubs f script) (TaskSt.start pop best) N) := by
   obtain ⟨hpre, _⟩ := good_pattern true p.skel hg
   obtain ⟨rest, hrest⟩ := runSkel_pre p.skel N
   unfold TaskProg.runTask
   rw [hrest, exec_append, hpre]
-  apply ginv_exec p site acc lbs ubs f script hb hs ha hc hr hscript
+  apply ginv_exec p site acc dl du lbs ubs f script hb hs ha hc hr hscript
   -- the state after the first hook and sweep
-  have e : (sweepPop p.sweep lbs ubs f pop best 0).1
-      = pop.map (fun a => sweepAgent ⟨0, false, lbs, ubs⟩ a (f a.pos)) := sweepPop_pop p.sweep false hr lbs ubs f _ _ _
+  have e : (sweepPop p.sweep dl du f pop best 0).1
+      = pop.map (fun a => sweepAgent ⟨0, false, dl, du⟩ a (f a.pos)) := sweepPop_pop p.sweep false hr dl du f _ _ _
   refine ⟨?_, by simp [exec_cons, exec_nil, TaskProg.execEv, TaskSt.start, greedyOracle],
     by simp [exec_cons, exec_nil, TaskProg.execEv, TaskSt.start, greedyOracle],
     by simp [exec_cons, exec_nil, TaskProg.execEv, TaskSt.start, greedyOracle]⟩
@@ -394,17 +395,17 @@ theorem greedyUpdate_bound (hb : BoundsOk lbs ubs) (hs : opsOk false site.ops = 
 end
 
 section
-variable (p : TaskProg) (site : Site) (acc : AcceptRec) (lbs ubs : List Int) (f : Pos → Int) (script : Nat → List Trial)
+variable (p : TaskProg) (site : Site) (acc : AcceptRec) (dl du : List Int) (lbs ubs : List Int) (f : Pos → Int) (script : Nat → List Trial)
 
 /-- every value a trial obtained is matched by a population member that is at least as good -/
 def TrialBound (s : TaskSt) : Prop := ∀ e ∈ s.trialEvals, ∃ a ∈ s.pop, a.fit ≤ e.2
 
 theorem trialBound_execEv (hb : BoundsOk lbs ubs) (hs : opsOk false site.ops = true) (ha : acc.okReplace = true)
     (hone : (site.ops.filter (· == .eval)).length = 1)
-    (hc : ClipFixes p.clip lbs ubs) (hr : IsRule p.sweep false)
+    (hc : ClipFixes p.clip dl du lbs ubs) (hr : IsRule p.sweep false)
     (hscript : ∀ k, ∀ t ∈ script k, ∀ q ∈ t.proposals, q.length = lbs.length)
     (s : TaskSt) (ev : SEv) (hg : GInv lbs ubs f s) (h : TrialBound s) :
-    TrialBound (p.execEv lbs ubs (greedyOracle site acc lbs ubs f script) s ev) := by
+    TrialBound (p.execEv dl du (greedyOracle site acc lbs ubs f script) s ev) := by
   cases ev with
   | update =>
     obtain ⟨_, u2, _⟩ := greedyUpdate_evals_inBox site acc lbs ubs f hb hs ha s.pop (script s.k) hg.settled (hscript s.k)
@@ -419,14 +420,14 @@ theorem trialBound_execEv (hb : BoundsOk lbs ubs) (hs : opsOk false site.ops = t
   | post => exact h
   | dump => exact h
   | clipAll =>
-    have e : (s.pop.map fun a => { a with pos := p.clip.runPos lbs ubs a.pos }) = s.pop :=
+    have e : (s.pop.map fun a => { a with pos := p.clip.runPos dl du a.pos }) = s.pop :=
       map_fix_settled _ s.pop (fun a ha' => by rw [hc a.pos (hg.settled a ha').1])
     intro x hx
     simp only [TaskProg.execEv] at hx ⊢
     rw [e]; exact h x hx
   | sweep =>
-    have e : (sweepPop p.sweep lbs ubs f s.pop s.best s.fresh).1
-        = s.pop.map (fun a => sweepAgent ⟨0, false, lbs, ubs⟩ a (f a.pos)) := sweepPop_pop p.sweep false hr lbs ubs f _ _ _
+    have e : (sweepPop p.sweep dl du f s.pop s.best s.fresh).1
+        = s.pop.map (fun a => sweepAgent ⟨0, false, dl, du⟩ a (f a.pos)) := sweepPop_pop p.sweep false hr dl du f _ _ _
     intro x hx
     simp only [TaskProg.execEv, greedyOracle] at hx ⊢
     obtain ⟨a, ha', hle⟩ := h x hx
@@ -435,27 +436,27 @@ theorem trialBound_execEv (hb : BoundsOk lbs ubs) (hs : opsOk false site.ops = t
 
 theorem ginv2_exec (hb : BoundsOk lbs ubs) (hs : opsOk false site.ops = true) (ha : acc.okReplace = true)
     (hone : (site.ops.filter (· == .eval)).length = 1)
-    (hc : ClipFixes p.clip lbs ubs) (hr : IsRule p.sweep false)
+    (hc : ClipFixes p.clip dl du lbs ubs) (hr : IsRule p.sweep false)
     (hscript : ∀ k, ∀ t ∈ script k, ∀ q ∈ t.proposals, q.length = lbs.length)
     (es : List SEv) (s : TaskSt) (hg : GInv lbs ubs f s) (h : TrialBound s) :
-    GInv lbs ubs f (p.exec lbs ubs (greedyOracle site acc lbs ubs f script) s es) ∧
-    TrialBound (p.exec lbs ubs (greedyOracle site acc lbs ubs f script) s es) := by
+    GInv lbs ubs f (p.exec dl du (greedyOracle site acc lbs ubs f script) s es) ∧
+    TrialBound (p.exec dl du (greedyOracle site acc lbs ubs f script) s es) := by
   induction es generalizing s with
   | nil => exact ⟨hg, h⟩
   | cons e es ih =>
-    exact ih _ (ginv_execEv p site acc lbs ubs f script hb hs ha hc hr hscript s e hg)
-      (trialBound_execEv p site acc lbs ubs f script hb hs ha hone hc hr hscript s e hg h)
+    exact ih _ (ginv_execEv p site acc dl du lbs ubs f script hb hs ha hc hr hscript s e hg)
+      (trialBound_execEv p site acc dl du lbs ubs f script hb hs ha hone hc hr hscript s e hg h)
 
 /-- post steps and the dump of a greedy task leave population and best agent alone -/
 theorem exec_tail_same (b : Nat) (s : TaskSt) :
-    (p.exec lbs ubs (greedyOracle site acc lbs ubs f script) s (List.replicate b .post ++ [.dump])).pop = s.pop ∧
-    (p.exec lbs ubs (greedyOracle site acc lbs ubs f script) s (List.replicate b .post ++ [.dump])).best = s.best ∧
-    (p.exec lbs ubs (greedyOracle site acc lbs ubs f script) s (List.replicate b .post ++ [.dump])).trialEvals = s.trialEvals := by
+    (p.exec dl du (greedyOracle site acc lbs ubs f script) s (List.replicate b .post ++ [.dump])).pop = s.pop ∧
+    (p.exec dl du (greedyOracle site acc lbs ubs f script) s (List.replicate b .post ++ [.dump])).best = s.best ∧
+    (p.exec dl du (greedyOracle site acc lbs ubs f script) s (List.replicate b .post ++ [.dump])).trialEvals = s.trialEvals := by
   induction b generalizing s with
   | zero => simp [exec_cons, exec_nil, TaskProg.execEv]
   | succ b ih =>
     rw [List.replicate_succ, List.cons_append, exec_cons]
-    have := ih (p.execEv lbs ubs (greedyOracle site acc lbs ubs f script) s .post)
+    have := ih (p.execEv dl du (greedyOracle site acc lbs ubs f script) s .post)
     simpa [TaskProg.execEv, greedyOracle] using this
 
 /-- **C02 for greedy tasks, every objective call counted.**  When a task of `N` iterations ends (for every `N`: at the end of
@@ -463,13 +464,13 @@ theorem exec_tail_same (b : Nat) (s : TaskSt) :
     trial* — for every objective and every trial script. -/
 theorem task_greedy_best_is_min (hg : Good true p.skel = true) (hb : BoundsOk lbs ubs) (hs : opsOk false site.ops = true)
     (ha : acc.okReplace = true) (hone : (site.ops.filter (· == .eval)).length = 1)
-    (hc : ClipFixes p.clip lbs ubs) (hr : IsRule p.sweep false)
+    (hc : ClipFixes p.clip dl du lbs ubs) (hr : IsRule p.sweep false)
     (hscript : ∀ k, ∀ t ∈ script k, ∀ q ∈ t.proposals, q.length = lbs.length)
     (pop : List Ag) (best : Ag) (h0 : ∀ a ∈ pop, InBox lbs ubs a.pos) (N : Nat) :
-    let s := p.runTask lbs ubs (greedyOracle site acc lbs ubs f script) (TaskSt.start pop best) N
+    let s := p.runTask dl du (greedyOracle site acc lbs ubs f script) (TaskSt.start pop best) N
     (∀ e ∈ s.evals, s.best.fit ≤ e.2) ∧ (∀ e ∈ s.trialEvals, s.best.fit ≤ e.2) := by
   have hk : BestKept (greedyOracle site acc lbs ubs f script) := ⟨fun _ _ => rfl, fun _ _ => rfl, fun _ _ => rfl⟩
-  refine ⟨(task_best p lbs ubs _ false hr hk pop best N).1, ?_⟩
+  refine ⟨(task_best p dl du _ false hr hk pop best N).1, ?_⟩
   obtain ⟨hpre, a, b, hbody⟩ := good_pattern true p.skel hg
   simp only [if_true] at hbody
   cases N with
@@ -479,47 +480,47 @@ theorem task_greedy_best_is_min (hg : Good true p.skel = true) (hb : BoundsOk lb
   | succ n =>
     -- the state at the start of the last iteration satisfies both invariants (they hold after `pre` and are kept by every event)
     obtain ⟨rest, hrest⟩ := runSkel_pre p.skel n
-    have hstart : GInv lbs ubs f (p.runTask lbs ubs (greedyOracle site acc lbs ubs f script) (TaskSt.start pop best) n) :=
-      task_greedy p site acc lbs ubs f script hg hb hs ha hc hr hscript pop best h0 n
-    have hpreTB : TrialBound (p.exec lbs ubs (greedyOracle site acc lbs ubs f script) (TaskSt.start pop best) [.hook, .sweep]) := by
+    have hstart : GInv lbs ubs f (p.runTask dl du (greedyOracle site acc lbs ubs f script) (TaskSt.start pop best) n) :=
+      task_greedy p site acc dl du lbs ubs f script hg hb hs ha hc hr hscript pop best h0 n
+    have hpreTB : TrialBound (p.exec dl du (greedyOracle site acc lbs ubs f script) (TaskSt.start pop best) [.hook, .sweep]) := by
       intro e he
       simp [exec_cons, exec_nil, TaskProg.execEv, TaskSt.start, greedyOracle] at he
-    have hpreG : GInv lbs ubs f (p.exec lbs ubs (greedyOracle site acc lbs ubs f script) (TaskSt.start pop best) [.hook, .sweep]) := by
-      have := task_greedy p site acc lbs ubs f script hg hb hs ha hc hr hscript pop best h0 0
+    have hpreG : GInv lbs ubs f (p.exec dl du (greedyOracle site acc lbs ubs f script) (TaskSt.start pop best) [.hook, .sweep]) := by
+      have := task_greedy p site acc dl du lbs ubs f script hg hb hs ha hc hr hscript pop best h0 0
       simpa [runTask_zero, hpre] using this
-    have hTBn : TrialBound (p.runTask lbs ubs (greedyOracle site acc lbs ubs f script) (TaskSt.start pop best) n) := by
+    have hTBn : TrialBound (p.runTask dl du (greedyOracle site acc lbs ubs f script) (TaskSt.start pop best) n) := by
       unfold TaskProg.runTask
       rw [hrest, exec_append, hpre]
-      exact (ginv2_exec p site acc lbs ubs f script hb hs ha hone hc hr hscript rest _ hpreG hpreTB).2
+      exact (ginv2_exec p site acc dl du lbs ubs f script hb hs ha hone hc hr hscript rest _ hpreG hpreTB).2
     -- the last iteration: updates, clip, hook | sweep | posts, dump
-    have hs_eq : p.runTask lbs ubs (greedyOracle site acc lbs ubs f script) (TaskSt.start pop best) (n + 1) = p.exec lbs ubs (greedyOracle site acc lbs ubs f script)
-        (p.execEv lbs ubs (greedyOracle site acc lbs ubs f script)
-          (p.exec lbs ubs (greedyOracle site acc lbs ubs f script)
-            (p.runTask lbs ubs (greedyOracle site acc lbs ubs f script) (TaskSt.start pop best) n)
+    have hs_eq : p.runTask dl du (greedyOracle site acc lbs ubs f script) (TaskSt.start pop best) (n + 1) = p.exec dl du (greedyOracle site acc lbs ubs f script)
+        (p.execEv dl du (greedyOracle site acc lbs ubs f script)
+          (p.exec dl du (greedyOracle site acc lbs ubs f script)
+            (p.runTask dl du (greedyOracle site acc lbs ubs f script) (TaskSt.start pop best) n)
             (List.replicate (a + 1) .update ++ [.clipAll, .hook])) .sweep)
         (List.replicate b .post ++ [.dump]) := by
       simp only [runTask_succ, hbody]
       simp only [exec_append, exec_cons, exec_nil, List.append_assoc]
-    obtain ⟨g3, t3⟩ := ginv2_exec p site acc lbs ubs f script hb hs ha hone hc hr hscript
+    obtain ⟨g3, t3⟩ := ginv2_exec p site acc dl du lbs ubs f script hb hs ha hone hc hr hscript
       (List.replicate (a + 1) .update ++ [.clipAll, .hook]) _ hstart hTBn
-    generalize p.exec lbs ubs (greedyOracle site acc lbs ubs f script)
-      (p.runTask lbs ubs (greedyOracle site acc lbs ubs f script) (TaskSt.start pop best) n)
+    generalize p.exec dl du (greedyOracle site acc lbs ubs f script)
+      (p.runTask dl du (greedyOracle site acc lbs ubs f script) (TaskSt.start pop best) n)
       (List.replicate (a + 1) .update ++ [.clipAll, .hook]) = s3 at hs_eq g3 t3
-    have g4 := ginv_execEv p site acc lbs ubs f script hb hs ha hc hr hscript s3 .sweep g3
-    have t4 := trialBound_execEv p site acc lbs ubs f script hb hs ha hone hc hr hscript s3 .sweep g3 t3
+    have g4 := ginv_execEv p site acc dl du lbs ubs f script hb hs ha hc hr hscript s3 .sweep g3
+    have t4 := trialBound_execEv p site acc dl du lbs ubs f script hb hs ha hone hc hr hscript s3 .sweep g3 t3
     -- right after the sweep the best agent is at most every agent
-    have cov : ∀ x ∈ (p.execEv lbs ubs (greedyOracle site acc lbs ubs f script) s3 .sweep).pop,
-        (p.execEv lbs ubs (greedyOracle site acc lbs ubs f script) s3 .sweep).best.fit ≤ x.fit := by
-      have e : (sweepPop p.sweep lbs ubs f s3.pop s3.best s3.fresh).1
-          = s3.pop.map (fun a => sweepAgent ⟨0, false, lbs, ubs⟩ a (f a.pos)) := sweepPop_pop p.sweep false hr lbs ubs f _ _ _
+    have cov : ∀ x ∈ (p.execEv dl du (greedyOracle site acc lbs ubs f script) s3 .sweep).pop,
+        (p.execEv dl du (greedyOracle site acc lbs ubs f script) s3 .sweep).best.fit ≤ x.fit := by
+      have e : (sweepPop p.sweep dl du f s3.pop s3.best s3.fresh).1
+          = s3.pop.map (fun a => sweepAgent ⟨0, false, dl, du⟩ a (f a.pos)) := sweepPop_pop p.sweep false hr dl du f _ _ _
       intro x hx
       simp only [TaskProg.execEv, greedyOracle] at hx ⊢
       rw [e] at hx
       obtain ⟨y, hy, rfl⟩ := List.mem_map.mp hx
-      have := (sweepPop_best p.sweep false hr lbs ubs f s3.pop s3.best s3.fresh).2 y hy
+      have := (sweepPop_best p.sweep false hr dl du f s3.pop s3.best s3.fresh).2 y hy
       simpa [sweepAgent] using this
-    obtain ⟨q1, q2, q3⟩ := exec_tail_same p site acc lbs ubs f script b
-      (p.execEv lbs ubs (greedyOracle site acc lbs ubs f script) s3 .sweep)
+    obtain ⟨q1, q2, q3⟩ := exec_tail_same p site acc dl du lbs ubs f script b
+      (p.execEv dl du (greedyOracle site acc lbs ubs f script) s3 .sweep)
     intro e he
     rw [hs_eq] at he ⊢
     rw [q3] at he
